@@ -52,6 +52,9 @@ func toSimFaults(fs []FaultSpec) map[int]sim.Fault {
 		if f.Kind == "short" {
 			k = sim.FaultShort
 		}
+		if f.Kind == "late" {
+			k = sim.FaultLate
+		}
 		m[f.Call] = sim.Fault{Kind: k, N: f.N, Trunc: f.Trunc}
 	}
 	return m
@@ -106,6 +109,7 @@ func runFaultPlan(t *Trace, faults []FaultSpec, st *Stats) (out faultOutcome, v 
 			defer func() { putCtx = bg }()
 		}
 	}
+	twoStep := t.Extra != nil && t.Extra["finalize_two_step"] == true
 	env := NewEnv()
 	sim.CurrentFS = env.FS
 	var ft faultTarget
@@ -385,6 +389,11 @@ func runFaultPlan(t *Trace, faults []FaultSpec, st *Stats) (out faultOutcome, v 
 			pv := safeCall(func() {
 				if ss != nil {
 					ferr = ss.finalize()
+				} else if twoStep && cfg.Store == "rw" {
+					// the two-step way to finish a blockstore: FinalizeReadOnly, then Close
+					if ferr = store.FinalizeReadOnly(); ferr == nil {
+						ferr = store.Close()
+					}
 				} else {
 					ferr = store.Finalize()
 				}
@@ -470,11 +479,13 @@ func runFaultPlan(t *Trace, faults []FaultSpec, st *Stats) (out faultOutcome, v 
 		out.vacuous = true // the plan's call index was never reached
 		return out, nil
 	}
-	if !finalized || laterFailed {
+	if !finalized {
 		out.vacuous = true
 		return out, nil
 	}
-	// every later call succeeded: the archive must hold exactly the acknowledged blocks
+	// Finalize reported success (whether or not the store refused some puts in between): the archive
+	// must be well-formed and hold exactly the acknowledged blocks
+	_ = laterFailed
 	image := ft.bytes()
 	if (cfg.Store == "ds" || cfg.Store == "dw") && len(image) == 0 && len(m.Secs) == 0 {
 		return out, nil // a deferred writer that acknowledged nothing and wrote (or left) nothing
@@ -589,6 +600,10 @@ func RunC16(t *Trace, st *Stats) *Violation {
 				return first
 			}
 		}
+		// the error arrives together with a full count (an io.Writer may do that)
+		if n > 0 && !try([]FaultSpec{{Call: i, Kind: "late"}}, loc+"+late") {
+			return first
+		}
 		// the same outage also fails the Truncate with which the writer rolls the partial section back
 		// (an EMPTY write - the data of an empty block - that fails this way gets its own locus: the
 		// section is then complete on the medium although its Put failed, see D38)
@@ -693,6 +708,10 @@ func faultFreeWrites(t *Trace) (lens []int, ops []int) {
 			}
 			if ss != nil {
 				ss.finalize()
+			} else if t.Extra != nil && t.Extra["finalize_two_step"] == true && cfg.Store == "rw" {
+				if store.FinalizeReadOnly() == nil {
+					store.Close()
+				}
 			} else {
 				store.Finalize()
 			}
@@ -758,6 +777,9 @@ func GenC16(seed uint64, run int) *Trace {
 	t.Extra = map[string]any{"enumerate": true, "retry": r.Bool()}
 	if r.Chance(1, 6) {
 		t.Extra["cancelled_ctx"] = true // every write call is made with an already cancelled context
+	}
+	if store == "rw" && r.Chance(1, 3) {
+		t.Extra["finalize_two_step"] = true // finish with FinalizeReadOnly + Close instead of Finalize
 	}
 	return t
 }
